@@ -3,6 +3,7 @@
 package testscript
 
 import (
+	"errors"
 	"strconv"
 	"strings"
 
@@ -189,5 +190,73 @@ func VerifC04Isolation() {
 	}
 	if ro {
 		rt.Reach("read-only-dir")
+	}
+}
+
+// VerifC04SetupEnds: Params.Setup registers deferred functions and then ends
+// the run itself (error, Skip, FailNow) or lets the script run: the deferred
+// functions run in reverse order in every case and the work directory goes.
+func VerifC04SetupEnds() {
+	how := rt.IntRange(0, 3) // 0 setup succeeds, 1 returns an error, 2 skips, 3 FailNow
+	testWork := rt.Bool()
+	fsys := vNewFS([]byte("later\n-- f.txt --\nx\n"))
+	var order []int
+	var workdir string
+	p := Params{
+		Files:    []string{vScriptFile},
+		TestWork: testWork,
+		Setup: func(e *Env) error {
+			workdir = e.WorkDir
+			e.Defer(func() { order = append(order, 1) })
+			e.Defer(func() { order = append(order, 2) })
+			switch how {
+			case 1:
+				return errors.New("setup failed")
+			case 2:
+				e.T().Skip("not today")
+			case 3:
+				e.T().FailNow()
+			}
+			return nil
+		},
+		Cmds: map[string]func(ts *TestScript, neg bool, args []string){
+			"later": func(ts *TestScript, neg bool, args []string) {
+				ts.Defer(func() { order = append(order, 3) })
+			},
+		},
+	}
+	root := &vT{name: "root"}
+	RunT(root, p)
+	rt.Assert(len(root.subs) == 1, "one-subtest-per-script")
+	if len(root.subs) != 1 {
+		return
+	}
+	sub := root.subs[0]
+	want := []int{2, 1}
+	switch how {
+	case 0:
+		want = []int{3, 2, 1}
+		rt.Assert(!sub.failed && !sub.skipped, "setup-success-verdict")
+		rt.Reach("setup-succeeds")
+	case 1, 3:
+		rt.Assert(sub.failed, "setup-failure-fails-the-run")
+		rt.Reach("setup-fails")
+	case 2:
+		rt.Assert(sub.skipped && !sub.failed, "setup-skip-skips-the-run")
+		rt.Reach("setup-skips")
+	}
+	rt.Assert(len(order) == len(want), "all-deferred-functions-ran")
+	if len(order) == len(want) {
+		for i := range want {
+			rt.Assert(order[i] == want[i], "deferred-functions-ran-in-reverse-order")
+		}
+	}
+	rt.Assert(workdir != "", "setup-saw-the-work-directory")
+	if workdir != "" {
+		if testWork {
+			rt.Assert(fsys.Exists(workdir), "work-dir-retained-on-request")
+		} else {
+			rt.Assert(!fsys.Exists(workdir), "work-dir-removed")
+		}
 	}
 }
